@@ -82,6 +82,12 @@ class C05(Prop):
         zone = env.ZONES[env.sig("zone", i) % len(env.ZONES)]
         clock.set_zone(zone)     # nothing in a broadcast depends on the host zone: durations are durations
         port = self.ports[i % len(self.ports)]
+        if (i // max(1, ctx["nshards"])) % 6 == 1:
+            from aioswitcher.bridge import SwitcherBridge as _B
+
+            other = _B(self.rig.log.callback, [self.port]) if port == self.port else _B(self.rig.log.callback)
+            await other.stop()        # "stop is safe before start": also for everybody else
+            acc.count("stops_of_an_unstarted_bridge_on_the_same_ports")
         if (i // max(1, ctx["nshards"])) % 6 == 3:
             # the same bridge object stopped and started again: broadcasts after a restart are as well-formed as before
             await self.bridge.stop()
